@@ -1041,6 +1041,8 @@ def _abstract_nonlinear(fs, symmetric=False):
     original formulas is a model of the abstraction (take mul_abs = *), so `unsat` of the
     abstraction implies `unsat` of the original: sound for discharging, useless for refuting."""
     memo = {}
+    keep = []          # every memoised term is kept alive: z3 recycles the ids of freed terms (e.g. instantiated quantifier bodies),
+                       # and a recycled id would hit the memo entry of a different, dead term (found by a sub-agent: unsound `unsat`)
     products = {}      # ground products of 3 or 4 factors: their other association orders are asserted equal below
 
     def isnum(x):
@@ -1050,6 +1052,7 @@ def _abstract_nonlinear(fs, symmetric=False):
         k = t.get_id()
         if k in memo:
             return memo[k]
+        keep.append(t)
         if z3.is_quantifier(t):
             n = t.num_vars()
             cs = [z3.Const(Fresh.name("qv"), t.var_sort(i)) for i in range(n)]
